@@ -78,7 +78,7 @@ class SigmaRuleBase:
         ):  # Try to convert rule id into UUID object, but keep it if not possible
             try:
                 self.id = UUID(self.id)
-            except ValueError:
+            except (ValueError, AttributeError, TypeError):
                 pass
 
     @staticmethod
